@@ -788,6 +788,14 @@ func (x *g) method(s *spec.Service, name string, idx int, usedRoutes map[string]
 		x.prevPath[s.Name] = &sharedPath{path: p, vars: pv, verbs: map[string]bool{verb: true}}
 	}
 
+	// a path-bound field with an explicit json_name ([json_name = "kUserId"]): the property the
+	// JSON contract and the TS types use is then not the lowerCamel form of the proto name
+	for _, vn := range vars {
+		if f := req.Field(vn); f != nil && f.JSONName == "" && x.r3.chance(1, 5) {
+			f.JSONName = "k" + strings.ToUpper(vn[:1]) + strings.ReplaceAll(vn[1:], "_", "")
+		}
+	}
+
 	// query
 	wantQuery := x.has(FQuery) && (bodyless || x.has(FQueryOnBody))
 	if x.cfg.TSSafe && bodyless && nVars > 0 {
